@@ -1,0 +1,20 @@
+//go:build verif
+
+package executor
+
+// Add-only observation hooks for the verification harness (/verif, property C32).
+// Nothing here changes behaviour; the file is compiled only with -tags verif.
+
+// VerifC32WaitTriggers blocks until every trigger goroutine launched so far (tpd.fire) has returned.
+func (tpd *TriggerPluginDispatcher) VerifC32WaitTriggers() { tpd.triggerWg.Wait() }
+
+// VerifC32Pending returns the number of writtenRecords messages queued on the dispatcher channel.
+func (tpd *TriggerPluginDispatcher) VerifC32Pending() int { return len(tpd.c) }
+
+// VerifC32HaveWALWriter reports whether a SyncWAL goroutine has announced itself.
+func VerifC32HaveWALWriter() bool { return haveWALWriter }
+
+// VerifC32SetHaveWALWriter lets a long-lived harness instance switch RequestFlush between its two modes
+// (flush in the caller's goroutine / hand over to the SyncWAL goroutine).  The SyncWAL goroutine, if any,
+// keeps running; the caller must make sure it is idle (no flush request pending).
+func VerifC32SetHaveWALWriter(v bool) { haveWALWriter = v }
